@@ -183,6 +183,10 @@ class SimProblem(Problem):
 
     # ---- return policies
     def _sparse(self, dense):
+        if self.spec.get("int_dtype") and np.all(np.isfinite(dense)) and np.all(dense == np.round(dense)):
+            # constant matrices written with integer literals come out with an integer dtype
+            # (the repository's own Tame test problem does this)
+            return sp.sparse.coo_matrix(np.asarray(dense).astype(np.int64)).asformat(self.fmt)
         return sp.sparse.coo_matrix(dense).asformat(self.fmt)
 
     def _deliver(self, comp, key, make, const=False):
